@@ -113,8 +113,12 @@ func c12r1(c *Ctx, id string) {
 			if len(goes) != 1 || goes[0].Name != "go:"+fname(reopen) {
 				return "a transient end (" + causes[st.C("cause")] + ") does not start exactly one reopen"
 			}
-			if len(goes[0].Args) != 2 || avString(goes[0].Args[1]) != ec+".Event.VbID" && !strings.HasSuffix(avString(goes[0].Args[1]), ".VbID") {
+			// (receiver, the ended vBucket[, the current session token])
+			if len(goes[0].Args) < 2 || len(goes[0].Args) > 3 || avString(goes[0].Args[1]) != ec+".Event.VbID" && !strings.HasSuffix(avString(goes[0].Args[1]), ".VbID") {
 				return "reopen started for something else than the ended vBucket: " + goes[0].String()
+			}
+			if len(goes[0].Args) == 3 && !strings.HasPrefix(strings.TrimPrefix(avString(goes[0].Args[2]), "?int "), recv+".") {
+				return "reopen started with a session token that is not the stream's current one: " + goes[0].String()
 			}
 			if len(adds) != 0 || len(sends) != 0 {
 				return "a reopened stream is also counted as ended"
@@ -268,7 +272,26 @@ func c12r3(c *Ctx, id string) {
 	}
 	// reopen loop
 	calls := map[*State]int{}
-	h := &Harness{Fn: ro, Choices: map[string]int{"fails": 7}, Quiet: quietLog, MaxSteps: 4000,
+	// a session token: when reopenStream is handed the session it was started in and compares it with the stream's
+	// current one, both are atoms of an equality-only group (moved ⇒ the stream was closed meanwhile)
+	var groups []Group
+	sessionP, sessionF := "", ""
+	if len(ro.Params) == 3 {
+		if bt, ok := ro.Params[2].Type().Underlying().(*types.Basic); ok && bt.Info()&types.IsInteger != 0 {
+			allInstrs(ro, func(in ssa.Instruction) {
+				if cc := callOf(in); cc != nil && strings.Contains(calleeName(cc), "sync/atomic.") && strings.HasSuffix(calleeName(cc), ".Load") && len(cc.Args) == 1 {
+					if f := fieldOfAddr(cc.Args[0]); f != nil {
+						sessionF = ro.Params[0].Name() + "." + f.Name()
+					}
+				}
+			})
+			if sessionF != "" {
+				sessionP = ro.Params[2].Name()
+				groups = []Group{{Atoms: []string{sessionF, sessionP}, EqOnly: true}}
+			}
+		}
+	}
+	h := &Harness{Fn: ro, Choices: map[string]int{"fails": 7}, Groups: groups, Quiet: quietLog, MaxSteps: 4000,
 		NoInline: map[string]bool{fname(os): true},
 		Oracle: func(st *State, name string, args []AV, res *types.Tuple) ([]AV, bool) {
 			if name == fname(os) {
@@ -293,6 +316,13 @@ func c12r3(c *Ctx, id string) {
 				nSleep++
 			}
 		}
+		if sessionP != "" && !st.Eq(sessionF, sessionP) {
+			// the stream was closed since this re-open was started: nothing is attempted, nothing is fatal
+			if out.Panicked || nOpen != 0 {
+				return fmt.Sprintf("the stream was closed meanwhile, yet %d attempts are made (panic: %v)", nOpen, out.Panicked)
+			}
+			return ""
+		}
 		f := st.C("fails")
 		if f < 5 {
 			if out.Panicked {
@@ -310,7 +340,7 @@ func c12r3(c *Ctx, id string) {
 			return fmt.Sprintf("gives up after %d attempts instead of 5", nOpen)
 		}
 		return ""
-	}, "return at the first success; panic after exactly 5 consecutive failures")
+	}, "return at the first success; panic after exactly 5 consecutive failures; nothing at all once the stream was closed")
 }
 
 func c12r4(c *Ctx, id string) {
